@@ -146,7 +146,7 @@ pub fn datasets(thorough: bool) -> Vec<(u32, bool)> {
     }
     if thorough {
         for mask in 0u32..1024 {
-            if mask.count_ones() >= 5 && mask.count_ones() <= 8 && mask % 3 == 0 {
+            if mask.count_ones() >= 3 && mask.count_ones() <= 8 {
                 v.push((mask, mask % 2 == 0));
             }
         }
